@@ -16,7 +16,8 @@ META = dict(
         "Coq 8.16.1 kernel (coqc), vm_compute for evaluating the model on cases",
         "hand-written model coq/Json.v (read_descr/open_json follow Array._read_arraydescr, "
         "arrayinfotodtype, _check_arrayinfoconsistency check by check), tied by in-Coq differential "
-        "evaluation; translator gen/py2v.py for requiredkeys and the type-name table",
+        "evaluation; translator gen/py2v.py for requiredkeys, the type-name table and Gen_gate.v (the size "
+        "test of Array._check_arrayinfoconsistency read as a function of shape, item size and file size)",
         "oracles: json.load; packaging.version on darrversion (only parsable versions are generated); "
         "NumPy's rejection of negative / boolean extents (marked in Json.open_json)",
     ],
